@@ -3,7 +3,7 @@ tensor and expression (lazy) operands, and the substitution helpers forward_subs
 Proof: Props/C12.lean about Model/Solve.lean (+ Model/LU.lean).  Ties: (K3) the REAL solve<...> overloads and
 internal::forward_subs / backward_subs over the exact rational carrier: X compared entry by entry with the Lean model over core Rat,
 and A*X == B checked exactly by an in-harness oracle; (K4) float/double per ISA: residual measured against the property's bound (a test)."""
-import random
+import os, random, re
 from vlib import core, symrun, flow
 
 PID = "C12"
@@ -36,7 +36,7 @@ def rat_groups(tier, seed):
             calls = []
             for n in sizes:
                 calls += solve_calls(n, rng, seeds, [0, rng.randrange(1, 9)])
-                calls += solve_calls(n, rng, seeds[:1], [rng.choice([0, 3])], forms=(rng.randrange(1, 4),), strats=(rng.randrange(6),))
+                calls += solve_calls(n, rng, seeds[:1], [rng.choice([0, 3])], forms=(rng.randrange(1, 5),), strats=(rng.randrange(6),))
                 calls += ["run_subs<%d,%d>(%du);" % (n, c, seeds[0]) for c in (0, 1, rng.randrange(2, 9))]
             g(key, calls)
         # forward/backward substitution and get_lu_solve have no size classes (compile-time recursion for every n); the LU / inverse
@@ -52,7 +52,7 @@ def rat_groups(tier, seed):
         # one size per translation unit (a unit with two sizes x all widths x all forms exceeded the compile timeout on a loaded machine)
         for n in range(1, 21):
             calls = solve_calls(n, rng, seeds[:2], [0, 1, rng.randrange(2, 9)])
-            calls += solve_calls(n, rng, seeds[:1], [rng.choice([0, 3])], forms=(1, 2, 3), strats=(rng.randrange(6), rng.randrange(6)))
+            calls += solve_calls(n, rng, seeds[:1], [rng.choice([0, 3])], forms=(1, 2, 3, 4), strats=(rng.randrange(6), rng.randrange(6)))
             calls += ["run_subs<%d,%d>(%du);" % (n, c, sd) for c in range(0, 9) for sd in seeds[:2]]
             g("rat/n%d" % n, calls)
         g("rat/b32", solve_calls(32, rng, seeds[:1], [0, 5], strats=(0, 1, 2, 3)))
@@ -60,12 +60,13 @@ def rat_groups(tier, seed):
         g("rat/b65", solve_calls(65, rng, seeds[:1], [0, 2], strats=(1, 3)))
     return groups
 
-def real_groups(tier, seed):
+def measured_groups(tier, seed):
+    """float/double on rounded data: residual MEASURED against the bound (a test)"""
     combos = [(i, t) for i in core.ALL_ISAS for t in ("float", "double")]
     if tier == "quick":
         ts = ("double", "float")
         combos = [(isa, ts[(k + seed) % 2]) for k, isa in enumerate(core.QUICK_ISAS)]
-    sizes = [3, 8, 9, 17] if tier == "quick" else [1, 2, 3, 4, 5, 7, 8, 9, 12, 17, 20, 33]
+    sizes = [3, 9, 17] if tier == "quick" else [1, 2, 3, 4, 5, 7, 8, 9, 12, 17, 20, 33]
     groups = []
     for isa, t in combos:
         calls = []
@@ -79,6 +80,59 @@ def real_groups(tier, seed):
         groups.append({"key": "real/%s/%s" % (isa, t), "header": "solve_real.h", "isa": isa, "opt": "-O2", "calls": calls})
     return groups
 
+def exact_groups(tier, seed):
+    """float/double with integer solutions and exactly representable intermediates: X must be bit for bit the exact solution.
+    Every strategy x every size class of the LU / inverse underneath x vector and multi-column (columns != n) x every ISA x both types,
+    tensor, expression and trans() operand forms."""
+    rng = random.Random(seed * 6007 + 31)
+    isas = core.QUICK_ISAS if tier == "quick" else core.ALL_ISAS
+    seeds = [seed * 43 + 1, seed * 43 + 2] if tier == "quick" else [seed * 43 + k for k in range(1, 5)]
+    groups = []
+    for k, isa in enumerate(isas):
+        for t in ("float", "double"):
+            # quick: per ISA one type gets the full plan (rotating with the seed), the other a reduced one
+            full = ("float", "double")[(k + seed) % 2] == t
+            calls = []
+            def add(n, strats, cols, forms=(0,), sds=seeds):
+                for s in strats:
+                    if t == "float" and s in (0, 1):
+                        # the explicit inverse needs more than 24 significant bits even on these inputs: not exact in float, so the
+                        # inverse-based strategies are run exactly in double only (and measured in float by solve_real.h)
+                        continue
+                    for c in cols:
+                        for f in forms:
+                            for sd in sds:
+                                calls.append("run_solveexact<%s,%d,%d,%d,%d>(%du);" % (t, n, c, s, f, sd))
+            if tier == "quick":
+                small = [3, 8, rng.choice([2, 4, 5, 6, 7])] if full else [4]
+                mid = [9, rng.choice([16, 17])] if full else [rng.choice([8, 9]), 17]
+            else:
+                small = [1, 2, 3, 4, 5, 6, 7, 8] if full else [2, 4, 7]
+                mid = [9, 10, 12, 16, 17, 20] if full else [9, 16]
+            for n in small + mid:
+                wide = rng.choice([c for c in range(2, 9) if c != n])
+                add(n, range(6), [0, wide], sds=seeds if full else seeds[:1])
+                if full:
+                    add(n, [rng.randrange(2, 6)], [rng.choice([0, wide])], forms=(1, 2, 3, 4), sds=seeds[:1])
+            if full:
+                add(33, [1, 3], [0, 3], sds=seeds[:1]); add(33, [0, 2, 5], [2], sds=seeds[:1])
+            else:
+                add(33, [3], [2], sds=seeds[:1])
+            if tier == "thorough":
+                add(32, [0, 3], [0, 5], sds=seeds[:1]); add(65, [1, 3], [0, 2], sds=seeds[:1])
+            groups.append({"key": "exact/%s/%s" % (isa, t), "header": "lu_exact.h", "isa": isa, "opt": "-O2", "calls": calls})
+    return groups
+
+def real_groups(tier, seed):
+    return exact_groups(tier, seed) + measured_groups(tier, seed)
+
+def _only(fn):
+    """VERIF_GROUPS=<regex> restricts a run to the matching translation units (used for mutation experiments only)"""
+    pat = os.environ.get("VERIF_GROUPS")
+    if not pat:
+        return fn
+    return lambda tier, seed: [g for g in fn(tier, seed) if re.search(pat, g["key"])]
+
 def short_key(f):
     d = symrun.kv(f["input"]); o = symrun.kv(f["impl"])
     op = f["input"].split()[0]
@@ -88,7 +142,7 @@ def short_key(f):
 
 def run(tier, seed):
     return flow.standard_run(
-        PID, tier, seed, "Fastor.C12.solve_lu_correct", "FastorModel.Model.Solve", rat_groups, real_groups,
+        PID, tier, seed, "Fastor.C12.solve_lu_correct", "FastorModel.Model.Solve", _only(rat_groups), _only(real_groups),
         assumptions=["the strategy is defined on A (non-zero pivots as met by the strategy; C10/C11); the harness screens its seeded matrices",
                      "inverse / matmul return the exact inverse / product over the field (C10, C01)",
                      "floating point: the residual bound 8*n*eps*(|A||X|+|B|) is measured, not proved; ill-conditioned cases (growth > 1e3) are counted, not judged"],
